@@ -229,6 +229,40 @@ SAN_ENV = {'ASAN_OPTIONS': 'detect_leaks=0:abort_on_error=0:exitcode=66:allocato
 DEF_OPS = ('zone ', 'fixzone ', 'namezone ')
 
 
+def _run_linebuf(exe, data, env, quiet_limit):
+    """Run the harness line-buffered and read its answers as they come.  The deadline is per line:
+    the run is only given up when no complete answer arrived for `quiet_limit` seconds, so a slow
+    but progressing run (a loaded machine) is never mistaken for a hang.  Returns (lines, rc, stderr);
+    rc = -999 for a hang."""
+    import tempfile, select
+    with tempfile.TemporaryFile() as fin, tempfile.TemporaryFile() as ferr:
+        fin.write(data); fin.flush(); fin.seek(0)
+        p = subprocess.Popen([exe], stdin=fin, stdout=subprocess.PIPE, stderr=ferr, env=env)
+        fd = p.stdout.fileno()
+        buf = b''
+        rc = None
+        last = time.time()
+        seen = 0
+        while True:
+            r, _, _ = select.select([fd], [], [], 1.0)
+            if r:
+                chunk = os.read(fd, 1 << 16)
+                if not chunk: break
+                buf += chunk
+                k = buf.count(b'\n')
+                if k != seen: seen = k; last = time.time()
+            elif time.time() - last > quiet_limit:
+                p.kill(); rc = -999
+                break
+        p.wait()
+        if rc is None: rc = p.returncode
+        ferr.seek(0)
+        err = 'timeout' if rc == -999 else ferr.read().decode('utf-8', 'replace')
+    outs = buf.decode('utf-8', 'replace').split('\n')
+    if outs and not buf.endswith(b'\n'): outs[-1] = ''
+    return outs, rc, err
+
+
 def run_lines(exe, lines, env=None, timeout=900, per_line_timeout=10, block_starts=None):
     """Feed op lines; returns list of output lines (same length).  A crash (ASan report,
     abort, timeout) on line k yields 'CRASH <reason>' for that line and the run resumes after it;
@@ -242,22 +276,27 @@ def run_lines(exe, lines, env=None, timeout=900, per_line_timeout=10, block_star
     linebuf = False
     prefix = []
     hangs = 0
+    crashes = 0
+    t_begin = time.time()
     while start < n:
         ee = dict(e)
         if linebuf: ee['HARNESS_LINEBUF'] = '1'
         data = ('\n'.join(prefix + lines[start:]) + '\n').encode()
-        try:
-            p = subprocess.run([exe], input=data, stdout=subprocess.PIPE, stderr=subprocess.PIPE,
-                               env={**os.environ, **ee},
-                               timeout=(max(30, per_line_timeout * 3) if linebuf else min(timeout, 30 + 0.01 * (n - start))))
-            outs = p.stdout.decode('utf-8', 'replace').split('\n')
-            rc = p.returncode
-            err = p.stderr.decode('utf-8', 'replace')
-        except subprocess.TimeoutExpired as t:
-            outs = (t.stdout or b'').decode('utf-8', 'replace').split('\n')
-            if outs and not (t.stdout or b'').endswith(b'\n'): outs[-1] = ''   # partial line
-            rc = -999
-            err = 'timeout'
+        if linebuf:
+            outs, rc, err = _run_linebuf(exe, data, {**os.environ, **ee}, max(30, per_line_timeout * 3))
+        else:
+            try:
+                p = subprocess.run([exe], input=data, stdout=subprocess.PIPE, stderr=subprocess.PIPE,
+                                   env={**os.environ, **ee},
+                                   timeout=min(timeout, max(30, per_line_timeout * 3) + 0.01 * (n - start)))
+                outs = p.stdout.decode('utf-8', 'replace').split('\n')
+                rc = p.returncode
+                err = p.stderr.decode('utf-8', 'replace')
+            except subprocess.TimeoutExpired as t:
+                outs = (t.stdout or b'').decode('utf-8', 'replace').split('\n')
+                if outs and not (t.stdout or b'').endswith(b'\n'): outs[-1] = ''   # partial line
+                rc = -999
+                err = 'timeout'
         if outs and outs[-1] == '': outs.pop()
         outs = outs[len(prefix):] if len(outs) >= len(prefix) else []
         if rc == 0 and len(outs) == n - start:
@@ -280,12 +319,18 @@ def run_lines(exe, lines, env=None, timeout=900, per_line_timeout=10, block_star
                 m3 = re.search(r"Assertion `([^']*)' failed", err)
                 reason = 'assert:' + (m3.group(1).replace(' ', '') if m3 else '?')
             res.append('CRASH ' + reason)
+            crashes += 1
             if reason == 'timeout':
                 hangs += 1
                 if hangs >= 6:
                     # the implementation keeps hanging: do not spend 30 s on each of the remaining ops
                     res.extend(['CRASH timeout-not-run'] * (n - k - 1))
                     break
+            elif crashes >= 12 and time.time() - t_begin > 120:
+                # the implementation keeps dying and every death is slow (e.g. memory exhaustion): the violations found
+                # so far are reported; the remaining ops are marked as not run instead of spending minutes on each
+                res.extend(['CRASH not-run'] * (n - k - 1))
+                break
             start = k + 1
             s0 = 0
             if block_starts:
